@@ -11,6 +11,7 @@ package ptrace
 import (
 	"fmt"
 	"os"
+	"os/exec"
 	"path/filepath"
 	"strconv"
 	"strings"
@@ -160,6 +161,32 @@ func TestGocvBoundedResolver(t *testing.T) {
 		}
 	}
 	walk(0)
+
+	// /proc/self inside a symlink TARGET must mean the tracee, not the tracer: a second process with a
+	// different working directory is the tracee here
+	must(os.Symlink("/proc/self/cwd", filepath.Join(root, "a", "lself")))
+	must(os.Symlink("/proc/self/cwd/g", filepath.Join(root, "lselfg")))
+	must(os.Symlink("/proc/thread-self/cwd", filepath.Join(root, "a", "ltself")))
+	child := exec.Command("/bin/sleep", "60")
+	child.Dir = filepath.Join(root, "b")
+	must(child.Start())
+	defer func() { child.Process.Kill(); child.Wait() }()
+	cpid := child.Process.Pid
+	for _, tc := range []struct{ base, p, want string }{
+		{root, "a/lself/g", filepath.Join(root, "b", "g")},
+		{root, "a/lself", filepath.Join(root, "b")},
+		{root, "lselfg", filepath.Join(root, "b", "g")},
+		{filepath.Join(root, "a"), "lself/la/f", filepath.Join(root, "a", "f")},
+		{root, root + "/a/lself/g", filepath.Join(root, "b", "g")},
+		{root, "a/ltself/g", filepath.Join(root, "b", "g")},
+	} {
+		got := resolveTraceePath(cpid, tc.base, tc.p)
+		evals++
+		distinct++
+		if got != tc.want {
+			report("C02/resolver/procself-in-link-target", fmt.Sprintf("tracee pid %d (cwd $ROOT/b), path=%q: resolver says %q, in the tracee it is %q", cpid, strings.Replace(tc.p, root, "$ROOT", 1), strings.Replace(got, root, "$ROOT", 1), strings.Replace(tc.want, root, "$ROOT", 1)))
+		}
+	}
 	for k, n := range failed {
 		if n > 3 {
 			fmt.Printf("GOCV-SAMPLE {\"failure_class\":%q,\"cases\":%d}\n", k, n)
